@@ -46,12 +46,16 @@ const (
 	opIsRec
 	opEndPanic // defer span.End(); panic(v): End runs its recover() path (N=1: v.String() itself panics)
 	opRecErrPanic // RecordError(err) where err.Error() panics; the caller recovers and goes on
+	opNoop // a call that must leave nothing behind (V: which one, see noopNames)
 )
 
 type op struct {
 	Kind opKind
 	N    int // number of attributes for opAttr
+	V    int // variant (spelling / options) of the same abstract operation, see doOpCI
 }
+
+var noopNames = []string{"SetAttributes()", "AddLink(Link{})", "RecordError(nil)", "SetStatus(Unset)", "all accessors", "SpanContext+TracerProvider"}
 
 func (o op) coq() string {
 	switch o.Kind {
@@ -59,8 +63,8 @@ func (o op) coq() string {
 		return "OEnd"
 	case opAttr:
 		return "(MA " + strconv.Itoa(o.N) + ")"
-	case opRecErrPanic:
-		return "(MA 0)" // takes the span lock, leaves nothing behind
+	case opRecErrPanic, opNoop:
+		return "(MA 0)" // leaves nothing behind
 	case opEvent, opRecErr:
 		return "ME"
 	case opLink:
@@ -77,8 +81,15 @@ func (o op) coq() string {
 
 func (o op) String() string {
 	names := []string{"End", "SetAttributes", "AddEvent", "RecordError", "AddLink", "SetName", "SetStatus", "ChildStart", "IsRecording", "End(while panicking)", "RecordError(err whose Error() panics)"}
-	if o.Kind == opAttr {
-		return fmt.Sprintf("SetAttributes(%d keys)", o.N)
+	switch {
+	case o.Kind == opAttr:
+		return fmt.Sprintf("SetAttributes(%d keys, variant %d)", o.N, o.V)
+	case o.Kind == opNoop:
+		return noopNames[o.V]
+	case o.Kind == opStatus && o.V == 1:
+		return "SetStatus(Ok)"
+	case o.V != 0:
+		return fmt.Sprintf("%s[variant %d]", names[o.Kind], o.V)
 	}
 	return names[o.Kind]
 }
@@ -186,6 +197,10 @@ func parseID(s, prefix string) (int, bool) {
 // observe reads everything the property talks about from a ReadOnlySpan.
 func observe(s sdktrace.ReadOnlySpan) *snapObs {
 	ob := &snapObs{ET: s.EndTime(), Children: s.ChildSpanCount(), Drop: [3]int{s.DroppedAttributes(), s.DroppedEvents(), s.DroppedLinks()}}
+	if !s.SpanContext().IsValid() || s.Parent().IsValid() || s.SpanKind() != trace.SpanKindInternal || s.InstrumentationScope().Name != "c10" ||
+		s.StartTime().IsZero() || s.Resource() == nil {
+		ob.Bad += "identity accessors (SpanContext/Parent/SpanKind/InstrumentationScope/StartTime/Resource);"
+	}
 	var attrs [][2]int
 	for _, kv := range s.Attributes() {
 		k := string(kv.Key) // "a<m>_<k>"
@@ -250,6 +265,8 @@ func observe(s sdktrace.ReadOnlySpan) *snapObs {
 	if st := s.Status(); st.Code != codes.Unset || st.Description != "" {
 		if m, ok := parseID(st.Description, "s"); ok && st.Code == codes.Error {
 			ob.Status = m + 1
+		} else if st.Code == codes.Ok && st.Description == "" {
+			ob.Status = statusOk // which call: resolved in finish
 		} else {
 			ob.Bad += "status:" + st.Description + ";"
 		}
@@ -270,6 +287,8 @@ func parsePanicMsg(s string) (int, bool) {
 	return 0, false
 }
 
+var endBase = time.Unix(1_900_000_000, 0)
+
 var linkSC = trace.NewSpanContext(trace.SpanContextConfig{TraceID: trace.TraceID{1}, SpanID: trace.SpanID{2}})
 
 // doOp issues one call on the span and returns IsRecording's answer (false otherwise).
@@ -279,29 +298,82 @@ func doOp(tr trace.Tracer, sp trace.Span, id int, o op) bool { return doOpCI(tr,
 func doOpCI(tr trace.Tracer, sp trace.Span, id int, o op, ci *childInfo) bool {
 	switch o.Kind {
 	case opEnd:
-		sp.End()
+		switch o.V {
+		case 1: // explicit end time, different for every caller
+			sp.End(trace.WithTimestamp(endBase.Add(time.Duration(id+1) * time.Microsecond)))
+		case 2:
+			sp.End(trace.WithStackTrace(true))
+		default:
+			sp.End()
+		}
 	case opAttr:
 		kvs := make([]attribute.KeyValue, o.N)
 		for k := range kvs {
 			kvs[k] = attribute.Int(fmt.Sprintf("a%d_%d", id, k), id)
 		}
+		if o.V == 1 { // the same keys again inside one call: deduplicated, not counted, not dropped
+			kvs = append(kvs, kvs[0], kvs[len(kvs)-1])
+		}
 		sp.SetAttributes(kvs...)
 	case opEvent:
-		sp.AddEvent("e"+strconv.Itoa(id), trace.WithAttributes(attribute.Int("id", id)))
+		if o.V == 1 {
+			sp.AddEvent("e"+strconv.Itoa(id), trace.WithTimestamp(endBase), trace.WithStackTrace(true))
+		} else {
+			sp.AddEvent("e"+strconv.Itoa(id), trace.WithAttributes(attribute.Int("id", id)))
+		}
 	case opRecErr:
-		sp.RecordError(errors.New("x" + strconv.Itoa(id)))
+		if o.V == 1 {
+			sp.RecordError(errors.New("x"+strconv.Itoa(id)), trace.WithStackTrace(true), trace.WithTimestamp(endBase), trace.WithAttributes(attribute.Int("id", id)))
+		} else {
+			sp.RecordError(errors.New("x" + strconv.Itoa(id)))
+		}
+	case opNoop:
+		switch o.V {
+		case 0:
+			sp.SetAttributes()
+		case 1:
+			sp.AddLink(trace.Link{})
+		case 2:
+			sp.RecordError(nil)
+		case 3:
+			sp.SetStatus(codes.Unset, "ignored")
+		case 4:
+			if ro, ok := sp.(sdktrace.ReadOnlySpan); ok {
+				if !skipLiveAttrs {
+					_ = ro.Attributes()
+				}
+				_, _, _ = ro.Name(), ro.Events(), ro.Links()
+				_, _, _, _ = ro.Status(), ro.EndTime(), ro.StartTime(), ro.ChildSpanCount()
+				_, _, _ = ro.DroppedAttributes(), ro.DroppedEvents(), ro.DroppedLinks()
+				_, _, _, _ = ro.Parent(), ro.SpanKind(), ro.InstrumentationScope(), ro.Resource()
+			}
+		default:
+			_, _ = sp.SpanContext(), sp.TracerProvider()
+		}
 	case opLink:
 		sp.AddLink(trace.Link{SpanContext: linkSC, Attributes: []attribute.KeyValue{attribute.Int("l", id)}})
 	case opName:
 		sp.SetName("n" + strconv.Itoa(id))
 	case opStatus:
-		sp.SetStatus(codes.Error, "s"+strconv.Itoa(id))
+		if o.V == 1 { // Ok: wins over Error for good, and drops the description
+			sp.SetStatus(codes.Ok, "s"+strconv.Itoa(id))
+		} else {
+			sp.SetStatus(codes.Error, "s"+strconv.Itoa(id))
+		}
 	case opChild:
 		ctx := trace.ContextWithSpan(context.Background(), sp)
 		if ci != nil {
 			ctx = context.WithValue(ctx, childKey{}, ci)
 		}
-		_, ch := tr.Start(ctx, "child")
+		var ch trace.Span
+		switch o.V {
+		case 1: // started through another tracer (other scope) of the parent's provider
+			_, ch = sp.TracerProvider().Tracer("other", trace.WithInstrumentationVersion("v2")).Start(ctx, "child", trace.WithSpanKind(trace.SpanKindClient))
+		case 2:
+			_, ch = tr.Start(ctx, "child", trace.WithAttributes(attribute.Int("c", id)), trace.WithLinks(trace.Link{SpanContext: linkSC}), trace.WithTimestamp(endBase))
+		default:
+			_, ch = tr.Start(ctx, "child")
+		}
 		ch.End()
 	case opRecErrPanic:
 		func() {
@@ -317,6 +389,10 @@ func doOpCI(tr trace.Tracer, sp trace.Span, id int, o op, ci *childInfo) bool {
 }
 
 const panicBase = 1000
+
+// skipLiveAttrs: see raceTier (F-C10-2).
+var skipLiveAttrs bool
+const statusOk = -1
 
 // slowValue is the panic value: formatting it (which End does under the span lock, to record the
 // exception event) yields and sleeps, so that the other callers pile up behind it.
@@ -369,10 +445,24 @@ func genLimits(r *vgen.Rand) [3]int {
 	return [3]int{vgen.Pick(r, pick), vgen.Pick(r, pick), vgen.Pick(r, pick)}
 }
 
+// recordOnly: spans that record (and reach OnEnd) without being sampled.
+type recordOnly struct{}
+
+func (recordOnly) ShouldSample(p sdktrace.SamplingParameters) sdktrace.SamplingResult {
+	return sdktrace.SamplingResult{Decision: sdktrace.RecordOnly, Tracestate: trace.SpanContextFromContext(p.ParentContext).TraceState()}
+}
+func (recordOnly) Description() string { return "recordOnly" }
+
+var envCount, spanCount atomic.Int64
+
 func newEnvLim(P int, lims [3]int) *env {
 	reg := &registry{spans: map[trace.SpanID]*spanTrack{}}
+	var sampler sdktrace.Sampler = sdktrace.AlwaysSample()
+	if envCount.Add(1)%4 == 0 {
+		sampler = recordOnly{} // recording but not sampled: everything in the property applies all the same
+	}
 	opts := []sdktrace.TracerProviderOption{
-		sdktrace.WithSampler(sdktrace.AlwaysSample()),
+		sdktrace.WithSampler(sampler),
 		sdktrace.WithRawSpanLimits(sdktrace.SpanLimits{AttributeValueLengthLimit: -1, AttributeCountLimit: lims[0], EventCountLimit: lims[1],
 			LinkCountLimit: lims[2], AttributePerEventCountLimit: -1, AttributePerLinkCountLimit: -1}),
 	}
@@ -386,7 +476,12 @@ func newEnvLim(P int, lims [3]int) *env {
 // startSpan starts a tracked root span.
 func (e *env) startSpan() (trace.Span, *spanTrack) {
 	st := &spanTrack{}
-	_, sp := e.tr.Start(context.Background(), "root", trace.WithNewRoot())
+	var sp trace.Span
+	if spanCount.Add(1)%3 == 0 {
+		_, sp = e.tr.Start(nil, "root") //nolint:staticcheck // a nil context is tolerated by Start
+	} else {
+		_, sp = e.tr.Start(context.Background(), "root", trace.WithNewRoot())
+	}
 	e.reg.mu.Lock()
 	e.reg.spans[sp.SpanContext().SpanID()] = st
 	e.reg.mu.Unlock()
@@ -520,6 +615,39 @@ func finish(st *spanTrack, calls []rec, lims [3]int) (hist []string, tbl *snapTa
 	st.mu.Unlock()
 	sort.Slice(all, func(i, j int) bool { return all[i].Seq < all[j].Seq })
 	tbl = newSnapTable()
+	// SetStatus(Ok) leaves no description: a visible Ok is attributed to the Ok call invoked first (if any
+	// Ok call took effect before the end was visible, that one was invoked before it too). Ok is final:
+	// once an Ok call returned before the first End call, every snapshot must show Ok (judged here).
+	okCall, okFirm, ended := -1, false, false
+	for _, r := range all {
+		isOk := r.Op.Kind == opStatus && r.Op.V == 1
+		switch {
+		case r.Kind == 'C' && isOk && okCall < 0:
+			okCall = r.T
+		case r.Kind == 'R' && isOk && !ended:
+			okFirm = true
+		case r.Kind == 'C' && (r.Op.Kind == opEnd || r.Op.Kind == opEndPanic):
+			ended = true
+		}
+	}
+	fix := func(ob *snapObs) *snapObs {
+		c := *ob
+		switch {
+		case c.Status == statusOk && okCall >= 0:
+			c.Status = okCall + 1
+		case c.Status == statusOk:
+			c.Status = 0
+			c.Bad += "status Ok without any SetStatus(Ok) call;"
+		case okFirm:
+			c.Bad += fmt.Sprintf("SetStatus(Ok) returned before End was called, yet the status shown is %d;", c.Status)
+		}
+		return &c
+	}
+	for i := range all {
+		if all[i].Kind == 'O' {
+			all[i].Snap = fix(all[i].Snap)
+		}
+	}
 	for _, r := range all {
 		hist = append(hist, evCoq(r, tbl))
 		switch r.Kind {
@@ -534,17 +662,61 @@ func finish(st *spanTrack, calls []rec, lims [3]int) (hist []string, tbl *snapTa
 	}
 	if len(delivered) > 0 {
 		for _, d := range delivered {
-			ob := observe(d)
+			ob := fix(observe(d))
 			bad += ob.Bad
 			rereads = append(rereads, strconv.Itoa(tbl.add(ob)))
 		}
 		if st.live != nil {
-			ob := observe(st.live)
+			ob := fix(observe(st.live))
 			bad += ob.Bad
 			rereads = append(rereads, strconv.Itoa(tbl.add(ob)))
 		}
 	}
 	return
+}
+
+// statusCase: SetStatus calls (Unset / Error / Ok, any order) on one recording span, the status read back after each.
+func statusCase(w *vgen.Writer, r *vgen.Rand) {
+	e := newEnv(1)
+	sp, st := e.startSpan()
+	n := r.Range(1, 12)
+	var ws, reads, desc []string
+	bad := ""
+	coq := func(s sdktrace.Status) string {
+		switch s.Code {
+		case codes.Ok:
+			if s.Description != "" {
+				bad = "Ok status with a description"
+			}
+			return "SOk"
+		case codes.Error:
+			m, ok := parseID(s.Description, "s")
+			if !ok {
+				bad = "Error status with description " + s.Description
+			}
+			return fmt.Sprintf("XE %d", m)
+		}
+		if s.Description != "" {
+			bad = "Unset status with a description"
+		}
+		return "SUnset"
+	}
+	for i := 0; i < n; i++ {
+		c := vgen.Pick(r, []codes.Code{codes.Unset, codes.Error, codes.Error, codes.Ok})
+		sp.SetStatus(c, "s"+strconv.Itoa(i))
+		ws = append(ws, coq(sdktrace.Status{Code: c, Description: map[bool]string{true: "s" + strconv.Itoa(i)}[c == codes.Error]}))
+		got := st.live.Status()
+		reads = append(reads, coq(got))
+		desc = append(desc, fmt.Sprintf("SetStatus(%v, s%d) -> %v %q", c, i, got.Code, got.Description))
+	}
+	sp.End()
+	d := map[string]any{"fragment": "status", "calls": desc}
+	if bad != "" {
+		w.Violation("status register: "+bad, d)
+		return
+	}
+	w.Tally("status")
+	w.Add(fmt.Sprintf("CStatus [%s] [%s]", strings.Join(ws, "; "), strings.Join(reads, "; ")), d, "status", n > 1)
 }
 
 // ---- generators ----
@@ -553,25 +725,45 @@ func genOp(r *vgen.Rand, endWeight int) op {
 	x := r.Intn(20 + endWeight)
 	switch {
 	case x < 4:
-		return op{Kind: opAttr, N: r.Range(1, 4)}
+		return op{Kind: opAttr, N: r.Range(1, 4), V: r.Intn(3) / 2}
 	case x < 6:
-		return op{Kind: opEvent}
+		return op{Kind: opEvent, V: r.Intn(3) / 2}
 	case x < 8:
-		return op{Kind: opRecErr}
+		return op{Kind: opRecErr, V: r.Intn(3) / 2}
 	case x < 10:
 		return op{Kind: opLink}
 	case x < 12:
 		return op{Kind: opName}
 	case x < 14:
-		return op{Kind: opStatus}
+		return op{Kind: opStatus, V: r.Intn(3) / 2} // 1/3 Ok (racing fragments only, see seqSafe)
 	case x < 16:
-		return op{Kind: opChild, N: vgen.Pick(r, []int{0, 0, 1, 3, 20, 60, 200})} // N: how long OnStart dawdles
+		return op{Kind: opChild, N: vgen.Pick(r, []int{0, 0, 1, 3, 20, 60, 200}), V: vgen.Pick(r, []int{0, 0, 1, 2})} // N: how long OnStart dawdles
 	case x < 17:
+		if r.Chance(1, 2) {
+			return op{Kind: opNoop, V: r.Intn(len(noopNames))}
+		}
 		return op{Kind: opRecErrPanic}
 	case x < 20:
 		return op{Kind: opIsRec}
 	}
-	return op{Kind: opEnd}
+	return op{Kind: opEnd, V: vgen.Pick(r, []int{0, 0, 1, 2})}
+}
+
+// limSafe: with an attribute limit the dropped count also counts repeated keys, which the model's
+// accounting (distinct keys offered) does not describe: repeated keys only on spans without that limit.
+func limSafe(o op, lims [3]int) op {
+	if o.Kind == opAttr && lims[0] != -1 {
+		o.V = 0
+	}
+	return o
+}
+
+// seqSafe: the sequential tie compares with the model, whose status register has no Ok priority.
+func seqSafe(o op) op {
+	if o.Kind == opStatus {
+		o.V = 0
+	}
+	return o
 }
 
 func opsCoq(ops []op) string {
@@ -721,6 +913,7 @@ func raceCase(w *vgen.Writer, r *vgen.Rand, tracing bool, kind string, storm boo
 	lims := genLimits(r)
 	for g := range progs { // some End calls come from a deferred call in a panicking goroutine
 		for j := range progs[g] {
+			progs[g][j].o = limSafe(progs[g][j].o, lims)
 			if progs[g][j].o.Kind == opEnd && r.Chance(1, 4) {
 				progs[g][j].o = op{Kind: opEndPanic, N: r.Intn(2)}
 			}
@@ -827,9 +1020,9 @@ func stormLoop(w *vgen.Writer, r *vgen.Rand, tracing bool, trials int, kind stri
 			for g := range ops {
 				ops[g] = make([]op, n)
 				for i := range ops[g] {
-					o := op{Kind: opEnd}
+					o := op{Kind: opEnd, V: vgen.Pick(r, []int{0, 0, 0, 1, 2})}
 					if mixed && g >= 2 && r.Bool() {
-						o = genOp(r, 0)
+						o = limSafe(genOp(r, 0), lims)
 					}
 					if panicking && g == 0 {
 						o = op{Kind: opEndPanic, N: r.Intn(2)}
@@ -946,6 +1139,7 @@ func withTracing(on bool, f func()) {
 
 func main() {
 	raceChild := flag.Bool("race-child", false, "run only the free-running fragment (used under go build -race)")
+	flag.BoolVar(&skipLiveAttrs, "skip-live-attrs", false, "race child: leave Attributes() on the live span out of the accessor calls (F-C10-2)")
 	o := vgen.ParseFlags()
 	r := vgen.NewRand(o.Seed)
 	w := vgen.NewWriter(o.Out, "C10.Spec C10.Model C10.Corr", "case", 96)
@@ -995,13 +1189,19 @@ func main() {
 				for i := 0; i < nSeq; i++ {
 					n := r.Range(1, 14)
 					ops := make([]op, n)
+					lims := genLimits(r)
 					for j := range ops {
-						ops[j] = genOp(r, 3)
+						ops[j] = limSafe(seqSafe(genOp(r, 3)), lims)
 						if j > 0 && ops[j-1].Kind == opEnd && r.Chance(2, 3) {
 							ops[j] = op{Kind: opIsRec} // ask right after an End returned
 						}
 					}
-					seqCase(w, r, tracing, r.Intn(4), ops, "seq", genLimits(r))
+					seqCase(w, r, tracing, r.Intn(4), ops, "seq", lims)
+				}
+			}
+			if !*raceChild && tracing {
+				for i := 0; i < o.Count(150, 2500); i++ {
+					statusCase(w, r)
 				}
 			}
 			for i := 0; i < nRace; i++ {
@@ -1048,20 +1248,57 @@ func raceTier(w *vgen.Writer, o vgen.Opts) {
 	}
 	sub := filepath.Join(o.Out, "race-child")
 	os.MkdirAll(sub, 0o755)
-	run := exec.CommandContext(ctx, bin, "-race-child", "-seed", strconv.FormatUint(o.Seed, 10), "-tier", "quick", "-out", sub)
-	run.Env = append(os.Environ(), "GORACE=halt_on_error=1 exitcode=66")
-	var buf bytes.Buffer
-	run.Stdout, run.Stderr = &buf, &buf
-	err := run.Run()
-	if strings.Contains(buf.String(), "WARNING: DATA RACE") {
-		w.Violation("data race reported by the race detector in the free-running fragment", map[string]any{"report": tail(buf.String(), 6000)})
-		return
+	// Two passes, each stopping at the first report. Pass 1 leaves Attributes() on the LIVE span out of the
+	// accessor calls: any race is a violation. Pass 2 includes it: a race whose writer is that accessor
+	// (recordingSpan.Attributes -> dedupeAttrs rewriting, in place, the backing array the delivered snapshot
+	// shares) is finding F-C10-2, rendered as a case with that code; any other race is a violation.
+	for pass, extra := range [][]string{{"-skip-live-attrs"}, {}} {
+		args := append([]string{"-race-child", "-seed", strconv.FormatUint(o.Seed, 10), "-tier", "quick", "-out", sub}, extra...)
+		run := exec.CommandContext(ctx, bin, args...)
+		run.Env = append(os.Environ(), "GORACE=halt_on_error=1 exitcode=66")
+		var buf bytes.Buffer
+		run.Stdout, run.Stderr = &buf, &buf
+		err := run.Run()
+		rep := buf.String()
+		if i := strings.Index(rep, "WARNING: DATA RACE"); i >= 0 {
+			rep = rep[i:]
+			// the two conflicting accesses are the first two blocks of the report
+			blocks := strings.SplitN(strings.TrimPrefix(rep, "WARNING: DATA RACE\n"), "\n\n", 3)
+			desc := map[string]any{"report": tail(rep, 6000), "pass": pass + 1}
+			known := false
+			if pass == 1 && len(blocks) >= 2 {
+				for k := 0; k < 2; k++ {
+					wr, rd := blocks[k], blocks[1-k]
+					if (strings.HasPrefix(wr, "Write at") || strings.HasPrefix(wr, "Previous write at")) &&
+						strings.Contains(wr, "(*recordingSpan).dedupeAttrsFromRecord()") && strings.Contains(wr, "(*recordingSpan).Attributes()") &&
+						(strings.HasPrefix(rd, "Read at") || strings.HasPrefix(rd, "Previous read at")) && !strings.Contains(topFrame(rd), "(*recordingSpan)") {
+						known = true // the reader reads the delivered snapshot's slice outside the span's lock
+					}
+				}
+			}
+			if known {
+				w.Add("CRace 2", desc, "race-detector", true)
+				w.Extra["race_detector"] = "pass 1 (without Attributes() on the live span) clean; pass 2: the F-C10-2 race"
+				return
+			}
+			w.Violation("data race reported by the race detector in the free-running fragment", desc)
+			return
+		}
+		if err != nil {
+			w.Extra["race_detector"] = "inconclusive: " + err.Error() + " " + tail(rep, 2000)
+			return
+		}
 	}
-	if err != nil {
-		w.Extra["race_detector"] = "inconclusive: " + err.Error() + " " + tail(buf.String(), 2000)
-		return
+	w.Extra["race_detector"] = "free-running fragment re-run under go build -race (with and without Attributes() on the live span): no data race reported"
+}
+
+// topFrame: the innermost frame of one access of a race report.
+func topFrame(block string) string {
+	l := strings.SplitN(block, "\n", 3)
+	if len(l) < 2 {
+		return ""
 	}
-	w.Extra["race_detector"] = "free-running fragment re-run under go build -race: no data race reported"
+	return l[1]
 }
 
 func tail(s string, n int) string {
